@@ -239,6 +239,8 @@ func c18Check(c *core.Ctx, data any, where string) bool {
 // statement allows two outcomes: the same number, or a coerce issue.
 var c18Literals = []string{"9007199254740993", "-9007199254740993", "9007199254740995", "1152921504606846977", "4611686018427400249", "-4611686018427400249",
 	"9223372036854775807", "-9223372036854775807", "9223372036854775295", "9007199254740992", "9007199254740994", "36028797018963969", "123456789012345678",
+	// literals that are the shortest decimal form of ANOTHER float64 (they end in zeros): still not that float64
+	"1152921504606847000", "20000000000000010", "9000000000000001000", "-1152921504606847000", "4611686018427388000",
 	// beyond the int64 range on either side
 	"9223372036854775808", "9223372036854776832", "-9223372036854775808", "-9223372036854775809", "-9223372036854776000", "-9223372036854776832", "-9223372036854776833", "18446744073709551615", "-18446744073709551616"}
 
@@ -284,6 +286,69 @@ func c18JSONLiterals(c *core.Ctx) bool {
 		}
 	}
 	c.Count("json_integer_literals", len(c18Literals)*2)
+	// literals beyond the float64 range into float destinations: no float holds them, so an issue (of the field or of the whole
+	// document) is the only acceptable outcome - never an infinity or a saturated value
+	for _, lit := range []string{"1e999", "-1e400", "1.8e308", "-1.8e308", "123456789e301"} {
+		for _, k := range []spec.Kind{spec.Float64, spec.Float32} {
+			root := &spec.Node{Kind: spec.Struct, Fields: []spec.Field{{Key: "v", GoName: "V", Node: &spec.Node{Kind: k}}, {Key: "l", GoName: "L", Node: &spec.Node{Kind: spec.Slice, Elem: &spec.Node{Kind: k}}}}}
+			root.Number()
+			for _, doc := range []string{`{"v": ` + lit + `}`, `{"l": ["x", ` + lit + `]}`, `{"l": [1, ` + lit + `]}`} {
+				o := run.Parse(spec.Build(root, nil), zjson.Decode(strings.NewReader(doc)), nil)
+				c.Eval(1)
+				if o.Panicked || len(o.Issues) == 0 {
+					c.Violation("number-silently-changed|json-literal-beyond-float64|"+k.String(), map[string]any{"json_document": doc, "destination_type": k.String(), "observed_destination": obs.Render(o.Dest), "panic": fmt.Sprint(o.Panic)})
+					return false
+				}
+			}
+		}
+	}
+	// unsigned Go integers given directly: the same number, or a coerce issue
+	for _, in := range []any{uint64(math.MaxUint64), uint64(1 << 63), uint64(1<<63 + 5), uint(math.MaxUint), uint64(7), uint32(math.MaxUint32), uint8(200), int8(-128), int16(-300), uint16(65535), []uint64{1 << 63}, []any{uint64(math.MaxUint64)}} {
+		for _, k := range []spec.Kind{spec.Int, spec.Int32, spec.Int64} {
+			var root *spec.Node
+			if rv := reflect.ValueOf(in); rv.Kind() == reflect.Slice {
+				root = &spec.Node{Kind: spec.Slice, Elem: &spec.Node{Kind: k}}
+			} else {
+				root = &spec.Node{Kind: k}
+			}
+			root.Number()
+			o := run.Parse(spec.Build(root, nil), in, nil)
+			c.Eval(1)
+			if o.Panicked {
+				c.Violation("panic|"+k.String(), map[string]any{"input": fmt.Sprintf("%T(%v)", in, in), "panic": fmt.Sprint(o.Panic)})
+				return false
+			}
+			if len(o.Issues) > 0 {
+				continue
+			}
+			var gotV reflect.Value
+			if sl, ok := o.Dest.([]any); ok {
+				if len(sl) != 1 {
+					continue
+				}
+				gotV = reflect.ValueOf(sl[0])
+			} else {
+				gotV = reflect.ValueOf(o.Dest)
+			}
+			inV := reflect.ValueOf(in)
+			if inV.Kind() == reflect.Slice {
+				inV = inV.Index(0)
+				if inV.Kind() == reflect.Interface {
+					inV = inV.Elem()
+				}
+			}
+			want := new(big.Int)
+			if inV.CanUint() {
+				want.SetUint64(inV.Uint())
+			} else {
+				want.SetInt64(inV.Int())
+			}
+			if got := big.NewInt(gotV.Int()); got.Cmp(want) != 0 {
+				c.Violation("number-silently-changed|unsigned-or-sized-input|"+k.String(), map[string]any{"input": fmt.Sprintf("%T(%v)", in, in), "stored": got.String(), "destination_type": k.String()})
+				return false
+			}
+		}
+	}
 	return true
 }
 
